@@ -138,13 +138,20 @@ fn gen_spec(dim: &'static str, count: usize, eco: bool) -> Spec {
 }
 
 /// (raw dump, sizes, dump with canonically renumbered states)
-fn build_and_dump<T: St>(yk: YaccKind, sp: &Spec) -> Result<(String, String, String), String>
+fn build_and_dump<T: St>(yk: YaccKind, sp: &Spec, via_ast: bool) -> Result<(String, String, String), String>
 where
     usize: AsPrimitive<T>,
     T: TryFrom<usize>,
 {
     guarded(|| {
-        let grm = YaccGrammar::<T>::new_with_storaget(yk, &sp.src).map_err(|e| format!("grammar rejected: {e:?}")).unwrap();
+        // two public routes to a grammar: from the text, or from an already validated AST (what
+        // nimbleparse and the compile-time builder use)
+        let grm = if via_ast {
+            let ast = cfgrammar::yacc::ast::ASTWithValidityInfo::new(yk, &sp.src);
+            YaccGrammar::<T>::new_from_ast_with_validity_info(&ast).map_err(|e| format!("grammar rejected: {e:?}")).unwrap()
+        } else {
+            YaccGrammar::<T>::new_with_storaget(yk, &sp.src).map_err(|e| format!("grammar rejected: {e:?}")).unwrap()
+        };
         let mut d = dump_grm(&grm);
         let mut canon = d.clone();
         let mut sizes = format!("rules={} prods={} tokens={}", usize::from(grm.rules_len()), usize::from(grm.prods_len()), usize::from(grm.tokens_len()));
@@ -277,7 +284,7 @@ impl Check for C20 {
         60
     }
     fn required_counters(&self, _t: Tier) -> Vec<&'static str> {
-        vec!["accepted_u8", "refused_u8", "accepted_u16", "refused_u16", "lexers_accepted_u8", "lexers_refused_u8", "dumps_compared"]
+        vec!["accepted_u8", "refused_u8", "accepted_u16", "refused_u16", "lexers_accepted_u8", "lexers_refused_u8", "dumps_compared", "builds_through_the_ast_entry_point"]
     }
     fn case_cap_s(&self, tier: Tier) -> u64 {
         tier.sz(120, 1500)
@@ -327,7 +334,7 @@ impl Check for C20 {
         let yk = if eco { YaccKind::Eco } else { YaccKind::Original(YaccOriginalActionKind::GenericParseTree) };
         let big = count > 2000;
         let sp = if big && dim != "states" { Spec { table: false, ..sp } } else { sp };
-        let (reference, rsizes, rcanon) = match build_and_dump::<u32>(yk, &sp) {
+        let (reference, rsizes, rcanon) = match build_and_dump::<u32>(yk, &sp, false) {
             Ok(d) => d,
             Err(p) => {
                 out.violate("reference-build-failed", &["harness"], format!("u32 build failed: {p}"), json!({"dim": dim, "count": count, "eco": eco}));
@@ -335,10 +342,20 @@ impl Check for C20 {
             }
         };
         let widths: Vec<&str> = if big { vec!["u16"] } else { vec!["u8", "u16"] };
+        let mut builds: Vec<(&str, bool)> = vec![];
         for w in widths {
+            builds.push((w, false));
+            if !(big && dim == "states") {
+                builds.push((w, true));
+            }
+        }
+        for (w, via_ast) in builds {
             out.evals += 1;
-            let r = if w == "u8" { build_and_dump::<u8>(yk, &sp) } else { build_and_dump::<u16>(yk, &sp) };
-            let detail = |x: String| json!({"dimension": dim, "count": count, "syntax": sp.kind, "width": w, "u32_sizes": rsizes, "obs": x, "grammar_head": sp.src.chars().take(200).collect::<String>()});
+            if via_ast {
+                out.count("builds_through_the_ast_entry_point", 1);
+            }
+            let r = if w == "u8" { build_and_dump::<u8>(yk, &sp, via_ast) } else { build_and_dump::<u16>(yk, &sp, via_ast) };
+            let detail = |x: String| json!({"dimension": dim, "count": count, "syntax": sp.kind, "width": w, "entry_point": if via_ast { "new_from_ast_with_validity_info" } else { "new_with_storaget" }, "u32_sizes": rsizes, "obs": x, "grammar_head": sp.src.chars().take(200).collect::<String>()});
             match r {
                 Ok((d, sizes, canon)) => {
                     out.count(&format!("accepted_{w}"), 1);
@@ -366,7 +383,7 @@ impl Check for C20 {
                 }
             }
             if near(count) {
-                out.nontrivial(hash_str(&format!("{dim}{count}{w}{eco}")));
+                out.nontrivial(hash_str(&format!("{dim}{count}{w}{eco}{via_ast}")));
             }
         }
         out.sample = Some(json!({"dimension": dim, "count": count, "syntax": sp.kind, "u32_sizes": rsizes}));
